@@ -262,7 +262,7 @@ func (r *Run) Violation(class, what string, detail any) {
 	r.mu.Lock()
 	defer r.mu.Unlock()
 	for _, f := range r.findings {
-		if f.Status == "open" && f.Class == class {
+		if f.Status == "open" && classMatch(f.Class, class) {
 			r.knownSeen[f.ID]++
 			return
 		}
@@ -406,4 +406,40 @@ func b2i(b bool) int64 {
 		return 1
 	}
 	return 0
+}
+
+// classMatch compares a finding's class with a violation class segment by
+// segment (":"-separated); a "*" segment in the finding matches any one segment.
+func classMatch(pat, class string) bool {
+	if pat == class {
+		return true
+	}
+	ps, cs := splitColon(pat), splitColon(class)
+	if len(ps) != len(cs) {
+		return false
+	}
+	for i := range ps {
+		if ps[i] != "*" && ps[i] != cs[i] {
+			return false
+		}
+	}
+	return true
+}
+
+func splitColon(s string) []string {
+	var out []string
+	for {
+		i := -1
+		for k := 0; k < len(s); k++ {
+			if s[k] == ':' {
+				i = k
+				break
+			}
+		}
+		if i < 0 {
+			return append(out, s)
+		}
+		out = append(out, s[:i])
+		s = s[i+1:]
+	}
 }
